@@ -55,15 +55,20 @@ type bsCall struct {
 }
 
 type world struct {
-	r     *ev.Run
-	round int
-	cfgs  []*config.Config
-	ms    []*srv.Member
-	etcd  *clientv3.Client
-	hx    *etcdx.Etcd
-	conns [][]*grpc.ClientConn
-	id    uint64
-	root  string // cluster root key
+	r       *ev.Run
+	round   int
+	cfgs    []*config.Config
+	ms      []*member
+	plan    *txnPlan
+	kvx     bool
+	planted map[string]string
+	faults  int32 // faults injected into bootstrap processing so far
+	silent  bool  // the request that bootstrapped the cluster was answered with an error (injected fault)
+	etcd    *clientv3.Client
+	hx      *etcdx.Etcd
+	conns   [][]*grpc.ClientConn
+	id      uint64
+	root    string // cluster root key
 
 	mu      sync.Mutex
 	calls   []bsCall
@@ -139,9 +144,9 @@ var cfgMu sync.Mutex
 
 // newWorld starts a fresh cluster; a start-up failure (ports are allocated by listen-and-close, other
 // processes on the machine may grab them) is retried with new ports.
-func newWorld(r *ev.Run, round, members int) (w *world, err error) {
+func newWorld(r *ev.Run, round int, p roundPlan) (w *world, err error) {
 	for try := 0; try < 3; try++ {
-		if w, err = newWorldOnce(r, round, members); err == nil {
+		if w, err = newWorldOnce(r, round, p); err == nil {
 			return w, nil
 		}
 		r.Count("cluster_start_retries", 1)
@@ -149,23 +154,22 @@ func newWorld(r *ev.Run, round, members int) (w *world, err error) {
 	return nil, err
 }
 
-func newWorldOnce(r *ev.Run, round, members int) (*world, error) {
-	w := &world{r: r, round: round}
+func newWorldOnce(r *ev.Run, round int, p roundPlan) (*world, error) {
+	members := p.Members
+	w := &world{r: r, round: round, kvx: p.KvxStorage}
+	if p.TxnFault != "" || p.StoreFault > 0 || p.KvxStorage {
+		w.plan = newTxnPlan(p.TxnFault, int32(p.TxnN), int64(p.StoreFault))
+	}
 	cfgMu.Lock()
 	w.cfgs = srv.NewConfigs(members, func(i int, c *config.Config) {
 		c.LeaderLease = 30 // a starved process must not lose its leadership by itself
+		if p.KvxStorage {
+			c.PDServerCfg.UseRegionStorage = false // regions go through the (instrumented) kv.Base
+		}
 	})
 	cfgMu.Unlock()
 	var err error
-	if members == 1 {
-		var m *srv.Member
-		m, err = srv.Start(w.cfgs[0])
-		if err == nil {
-			w.ms = []*srv.Member{m}
-		}
-	} else {
-		w.ms, err = srv.StartCluster(w.cfgs)
-	}
+	w.ms, err = startMembers(w.cfgs, w.plan, w.kvx)
 	if err != nil {
 		for _, c := range w.cfgs {
 			removeAll(c.DataDir)
@@ -210,7 +214,7 @@ func (w *world) close() {
 
 // leader waits for a leader and returns its index (-1 none).
 func (w *world) leader() int {
-	m := srv.WaitLeader(w.ms, 90*time.Second)
+	m := waitLeader(w.ms, 90*time.Second)
 	for i := range w.ms {
 		if w.ms[i] == m && m != nil {
 			return i
@@ -414,6 +418,7 @@ type truth struct {
 	Keys    []string           `json:"keys"`
 	History []etcdx.WatchEvent `json:"history"`
 	IDHist  []etcdx.WatchEvent `json:"cluster_id_history"`
+	Touched []etcdx.WatchEvent `json:"unrelated_keys_touched,omitempty"`
 	all     []etcdx.WatchEvent
 }
 
@@ -439,6 +444,9 @@ func (w *world) readTruth() (*truth, error) {
 		}
 		for _, kv := range resp.Kvs {
 			k := string(kv.Key)
+			if _, planted := w.planted[k]; planted {
+				continue
+			}
 			t.Keys = append(t.Keys, k)
 			switch {
 			case k == w.root:
@@ -461,6 +469,12 @@ func (w *world) readTruth() (*truth, error) {
 		}
 		t.all = all
 		for _, h := range all {
+			if want, planted := w.planted[h.Key]; planted {
+				if h.Delete || h.Value != want {
+					t.Touched = append(t.Touched, h)
+				}
+				continue
+			}
 			if strings.HasPrefix(h.Key, w.root) {
 				t.History = append(t.History, h)
 			}
@@ -551,6 +565,10 @@ func (w *world) judgeBootstrap(stage string) bool {
 		r.Inconclusive("round %d: %d bootstrap requests timed out", w.round, timeouts)
 		return false
 	}
+	if len(t.Touched) > 0 {
+		r.Violation("bootstrap:unrelated-key-touched", fmt.Sprintf("key %s, which belongs to nothing the cluster owns, was changed at revision %d", t.Touched[0].Key, t.Touched[0].Rev), wit(nil))
+		return false
+	}
 	for _, c := range succ {
 		if c.Kind != "valid" {
 			r.Violation("bootstrap:malformed-accepted:"+c.Kind, fmt.Sprintf("a malformed bootstrap request (%s) succeeded", c.Kind), wit(map[string]interface{}{"request": c}))
@@ -588,6 +606,40 @@ func (w *world) judgeBootstrap(stage string) bool {
 	if len(succ) > 1 && !w.dupSeen {
 		w.dupSeen = true
 		r.Count("identical_payload_several_successes_not_judged", 1)
+	}
+	if len(succ) == 0 && atomic.LoadInt32(&w.faults) > 0 && t.Root != nil {
+		// A fault was injected into the processing of a request (reply of the committed transaction
+		// lost, storage write failed after the commit): that request was answered with an error
+		// although it took effect. The stated quantifier does not cover faults, so the missing
+		// success is counted, not judged; everything about the stored state is judged: it must come
+		// from exactly one request that was sent.
+		var from []bsCall
+		for _, c := range calls {
+			if c.Kind != "valid" || c.Store == nil || c.Region == nil {
+				continue
+			}
+			sv, ok1 := t.Stores[storeKey(w.root, c.Store.GetId())]
+			rv, ok2 := t.Regions[regionKey(w.root, c.Region.GetId())]
+			st, rg := &metapb.Store{}, &metapb.Region{}
+			if ok1 && ok2 && st.Unmarshal([]byte(sv)) == nil && rg.Unmarshal([]byte(rv)) == nil && proto.Equal(st, c.Store) && proto.Equal(rg, c.Region) {
+				dup := false
+				for i := range from {
+					dup = dup || samePayload(&from[i], &c)
+				}
+				if !dup {
+					from = append(from, c)
+				}
+			}
+		}
+		if len(from) != 1 {
+			r.Violation("bootstrap:stored-state-from-no-single-request:"+stage, fmt.Sprintf("cluster records are stored but they equal the payload of %d sent requests", len(from)), wit(nil))
+			return false
+		}
+		if !w.silent {
+			w.silent = true
+			r.Count("bootstrap_took_effect_but_answered_error_under_fault_not_judged", 1)
+		}
+		succ = from
 	}
 	if len(succ) == 0 {
 		if t.Root != nil || len(t.Stores) > 0 || len(t.Regions) > 0 || len(t.History) > 0 {
@@ -721,7 +773,7 @@ func (w *world) judgeBootstrap(stage string) bool {
 				return false
 			}
 		}
-		if i == w.served && len(ids) == 0 && stage == "after-race" {
+		if i == w.served && len(ids) == 0 && stage == "after-race" && atomic.LoadInt32(&w.faults) == 0 {
 			r.Violation("bootstrap:region-storage-lacks-first-region", fmt.Sprintf("member %d served the successful request but its region storage holds no region", i), wit(nil))
 			return false
 		}
@@ -801,6 +853,35 @@ func (w *world) judgeServed(stage string, l int) {
 	r.Count("served_view_checks", 1)
 }
 
+// restart stops member vi and starts it again on the same data dir.
+func (w *world) restart(vi int, why string) bool {
+	r := w.r
+	w.ms[vi].Stop()
+	w.step("member %d stopped (%s)", vi, why)
+	m, err := startMember(w.cfgs[vi], w.plan, w.kvx)
+	if err != nil {
+		w.ms[vi] = nil
+		r.Inconclusive("round %d: restart of member %d: %v", w.round, vi, err)
+		removeAll(w.cfgs[vi].DataDir)
+		return false
+	}
+	w.ms[vi] = m
+	r.Count("member_restarts", 1)
+	w.step("member %d restarted, reports cluster id %d", vi, m.Srv.ClusterID())
+	if err := w.dial(vi); err != nil {
+		r.Inconclusive("round %d: dial after restart: %v", w.round, err)
+		return false
+	}
+	return true
+}
+
+func (w *world) rootExists() bool {
+	ctx, cancel := context.WithTimeout(context.Background(), 30*time.Second)
+	defer cancel()
+	resp, err := w.etcd.Get(ctx, w.root)
+	return err == nil && len(resp.Kvs) > 0
+}
+
 // ---- one round ----
 
 type roundPlan struct {
@@ -813,10 +894,19 @@ type roundPlan struct {
 	PostResign  bool   `json:"resign_after"`
 	Restart     bool   `json:"restart"`
 	ForeignKind int    `json:"foreign_id_kind"`
+	// instrumented rounds
+	TxnFault     string `json:"bootstrap_txn_fault,omitempty"` // fail-before | lost-ack | hold-after | hold-before (+ leader change while held)
+	TxnN         int    `json:"bootstrap_txn_fault_n,omitempty"`
+	StoreFault   int    `json:"storage_write_fault_after_txn,omitempty"`
+	KvxStorage   bool   `json:"kvx_storage,omitempty"`
+	FaultRestart bool   `json:"restart_after_lost_ack,omitempty"`
+	Populate     bool   `json:"populated_key_space,omitempty"`
+	Side         bool   `json:"side_traffic_in_race,omitempty"`
 }
 
 func (p roundPlan) key() string {
-	return fmt.Sprintf("m%d|k%d|%s|%s|mal%d|pre%v|post%v|rst%v", p.Members, p.K, p.Via, p.IDs, p.Malformed, p.PreResign, p.PostResign, p.Restart)
+	return fmt.Sprintf("m%d|k%d|%s|%s|mal%d|pre%v|post%v|rst%v|%s%d|sf%d|kvx%v|fr%v|pop%v|side%v", p.Members, p.K, p.Via, p.IDs, p.Malformed, p.PreResign, p.PostResign, p.Restart,
+		p.TxnFault, p.TxnN, p.StoreFault, p.KvxStorage, p.FaultRestart, p.Populate, p.Side)
 }
 
 func via(plan string, j int, rng *rand.Rand) string {
@@ -831,7 +921,7 @@ func via(plan string, j int, rng *rand.Rand) string {
 }
 
 func bootstrapRound(r *ev.Run, round int, p roundPlan, rng *rand.Rand) {
-	w, err := newWorld(r, round, p.Members)
+	w, err := newWorld(r, round, p)
 	if err != nil {
 		r.Inconclusive("round %d: cluster start: %v", round, err)
 		return
@@ -851,6 +941,16 @@ func bootstrapRound(r *ev.Run, round int, p roundPlan, rng *rand.Rand) {
 	}
 	w.step("cluster of %d members started, leader %d, cluster id %d", p.Members, l, w.id)
 
+	if p.Populate {
+		n := r.Pick(2500, 4000)
+		w.planted, err = plantKeys(w.etcd, w.id, n)
+		if err != nil {
+			r.Inconclusive("round %d: planting keys: %v", round, err)
+			return
+		}
+		r.Count("planted_unrelated_keys", int64(len(w.planted)))
+		w.step("%d unrelated keys planted around the cluster root and the cluster id key", len(w.planted))
+	}
 	// (1) before anything: not bootstrapped, nothing stored
 	for _, v := range []string{"direct", "grpc"} {
 		b, err := w.isBootstrapped(v, l)
@@ -951,8 +1051,56 @@ func bootstrapRound(r *ev.Run, round int, p roundPlan, rng *rand.Rand) {
 			}
 		}(j)
 	}
+	raceDone := make(chan struct{})
+	var aux sync.WaitGroup
+	if p.Side {
+		w.sideTraffic(l, raceDone, &aux)
+		time.Sleep(5 * time.Millisecond) // the other RPC kinds are already arriving when the race starts
+	}
+	if w.plan != nil && (p.TxnFault == "hold-after" || p.TxnFault == "hold-before") {
+		// leader change while the bootstrap transaction is in flight: as soon as a transaction is
+		// held (before sending / after its commit) the leader resigns; once a leader serves again
+		// the held transactions / replies are let go
+		aux.Add(1)
+		go func(l int) {
+			defer aux.Done()
+			defer w.plan.Release()
+			select {
+			case <-raceDone:
+				r.Count("txn_hold_not_reached", 1)
+				return
+			case <-w.plan.held:
+			}
+			w.ms[l].Srv.GetMember().ResetLeader()
+			r.Count("leader_resigns", 1)
+			r.Count("leader_change_while_bootstrap_txn_in_flight:"+p.TxnFault, 1)
+			w.step("bootstrap transaction held (%s); leader %d resigned meanwhile", p.TxnFault, l)
+			nl := w.leader()
+			if nl >= 0 && p.TxnFault == "hold-after" {
+				// the new term finds the committed record and starts the raft cluster; only then
+				// does the old request continue (bounded wait, exploration only)
+				for i := 0; i < 500 && w.ms[nl].Srv.GetRaftCluster() == nil; i++ {
+					time.Sleep(10 * time.Millisecond)
+				}
+			}
+			w.step("leader %d serves; held bootstrap transaction released", nl)
+		}(l)
+	}
 	close(start)
 	wg.Wait()
+	close(raceDone)
+	if w.plan != nil {
+		w.plan.Release()
+	}
+	aux.Wait()
+	if w.plan != nil {
+		atomic.StoreInt32(&w.faults, w.plan.Injected())
+		r.Count("bootstrap_faults_injected", int64(w.plan.Injected()))
+		r.Count("bootstrap_txns_held", int64(atomic.LoadInt32(&w.plan.holds)))
+		if p.TxnFault != "" {
+			r.Count("bootstrap_txn_fault_rounds:"+p.TxnFault, 1)
+		}
+	}
 	w.step("race of %d requests (%d well-formed) finished", len(jobs), p.K)
 	l = w.leader()
 	if l < 0 {
@@ -971,7 +1119,10 @@ func bootstrapRound(r *ev.Run, round int, p roundPlan, rng *rand.Rand) {
 		if any {
 			break
 		}
-		if !p.PreResign && p.Members == 1 {
+		if atomic.LoadInt32(&w.faults) > 0 && w.rootExists() {
+			break // a request took effect but was answered with an error (injected fault)
+		}
+		if !p.PreResign && p.Members == 1 && atomic.LoadInt32(&w.faults) == 0 {
 			break // the leader was stable: no excuse
 		}
 		l = w.leader()
@@ -987,6 +1138,31 @@ func bootstrapRound(r *ev.Run, round int, p roundPlan, rng *rand.Rand) {
 	}
 	r.Count("bootstrap_races", 1)
 	r.Count("bootstrap_race_requests", int64(len(jobs)))
+	if w.silent {
+		// The cluster is bootstrapped in etcd but no request was told so. Clients keep asking:
+		// a different payload must never be answered with success; then a leader change or a
+		// restart of the member (a crash right after the transaction) brings the cluster up.
+		w.step("bootstrap took effect but was answered with an error (injected fault)")
+		for _, v := range []string{"direct", "grpc"} {
+			if b, err := w.isBootstrapped(v, l); err == nil {
+				r.Count(fmt.Sprintf("is_bootstrapped_%v_after_unacknowledged_bootstrap_not_judged", b), 1)
+			}
+			w.send("after-unacknowledged-bootstrap", "valid", v, l, w.request("valid"))
+			w.send("after-unacknowledged-bootstrap-same-ids", "valid", v, l, w.sameIDsRequest())
+		}
+		if p.FaultRestart {
+			if !w.restart(l, "crash image: restart right after the bootstrap transaction") {
+				return
+			}
+		} else if w.ms[l].Srv.GetRaftCluster() == nil {
+			w.ms[l].Srv.GetMember().ResetLeader()
+			r.Count("leader_resigns", 1)
+			w.step("leader %d resigned so that a new term loads the cluster", l)
+		}
+		if !w.judgeBootstrap("after-unacknowledged-bootstrap") {
+			return
+		}
+	}
 	// (4) bootstrapped now
 	l = w.waitRunning()
 	if l < 0 {
@@ -1067,20 +1243,7 @@ func bootstrapRound(r *ev.Run, round int, p roundPlan, rng *rand.Rand) {
 		if rng.Intn(2) == 0 {
 			vi = l
 		}
-		w.ms[vi].Stop()
-		w.step("member %d stopped", vi)
-		m, err := srv.Start(w.cfgs[vi])
-		if err != nil {
-			w.ms[vi] = nil
-			r.Inconclusive("round %d: restart of member %d: %v", round, vi, err)
-			removeAll(w.cfgs[vi].DataDir)
-			return
-		}
-		w.ms[vi] = m
-		r.Count("member_restarts", 1)
-		w.step("member %d restarted, reports cluster id %d", vi, m.Srv.ClusterID())
-		if err := w.dial(vi); err != nil {
-			r.Inconclusive("round %d: dial after restart: %v", round, err)
+		if !w.restart(vi, "restart") {
 			return
 		}
 		l = w.waitRunning()
